@@ -355,6 +355,32 @@ def rule_document_name(ck: Check, repo: Repo, rid: str = "R6") -> None:
 
 
 
+def rule_text_blocks(ck: Check, repo: Repo, rid: str = "R7") -> None:
+    """Tag-value `<text>…</text>` blocks end at the first `</text>`.  Content that comes from project files (licence
+    texts, copyright notices) is delimited safely only if an occurrence of the closing tag inside it is neutralised."""
+    r = ck.rule(rid, "file content written between <text> … </text> cannot contain the closing tag")
+    q = f"{RP}.ProjectReport.bill_of_materials"
+    fn = repo.func(q)
+    n = 0
+    for c in ast.walk(fn):
+        if isinstance(c, ast.Call) and isinstance(c.func, ast.Attribute) and c.func.attr == "write" and c.args \
+                and isinstance(c.args[0], ast.JoinedStr):
+            t = ast.unparse(c.args[0])
+            m = re.search(r"<text>\{(.+?)\}</text>", t)
+            if not m:
+                continue
+            n += 1
+            inner = m.group(1)
+            guarded = any(k in inner for k in ("replace(", "escape(", "sanitize", "sanitise"))
+            r.instance(f"text-block:{inner[:40]}", {"field": t[:40], "content": inner, "closing_tag_neutralised": guarded}, q)
+            if not guarded:
+                r.violation(q, f"`{inner}` is written between <text> and </text> as it is",
+                            f"{t[:60]}: a licence text or copyright notice that contains the string `</text>` ends the block early; the"
+                            f" rest of it is read as tag-value lines and the document no longer parses", repo.loc(c))
+    r.floor(2, "<text> blocks", got=n)
+
+
+
 def run(ck: Check, repo: Repo) -> None:
     ck.explanation = (
         "Structure of the bill of materials decided on every path of bill_of_materials: both loops range over the"
@@ -369,6 +395,7 @@ def run(ck: Check, repo: Repo) -> None:
     ck.trust("CPython ast", "sa/tab.py")
     rule_document(ck, repo)
     rule_document_name(ck, repo)
+    rule_text_blocks(ck, repo)
     rule_checksum(ck, repo)
     rule_concluded(ck, repo)
     # 'a File section for every covered file and for no other file': the covered set (shared with C03-R1/R2)
